@@ -26,7 +26,7 @@ pub struct Case {
 
 fn gen_case(cs: u64, tier: Tier) -> Case {
     let mut r = Rng::new(cs);
-    let program = gen_program(&mut r, &GenProgOpts { max_pages: 3, tricky_text: false, images: true, big_images: false, rich: true });
+    let program = gen_program(&mut r, &GenProgOpts { max_pages: 3, tricky_text: false, images: true, big_images: false, rich: true, tricky_names: false });
     let cfgs = all_configs();
     let mut cfg = cfgs[r.usize_below(cfgs.len())].clone();
     if cfg.object_streams && !r.chance(1, 4) {
